@@ -22,6 +22,8 @@ using namespace rlbox;
 using W = __int128;
 #if defined(ABI_LP16)
 using Abi = vm_abi_lp16;
+#elif defined(ABI_ILP64)
+using Abi = vm_abi_ilp64; // int is 64 bits in the guest: indices read from sandbox memory narrow
 #elif defined(ABI_LP64U)
 using Abi = vm_abi_lp64u;
 #else
@@ -63,6 +65,21 @@ GS(short, 2)
 GS(long long, 8)
 GS(double, 8)
 using IntArr4 = int[4];
+using IntArr2x3 = int[2][3];
+using LongArr2x2 = long[2][2];
+#if defined(ABI_LP16)
+GS(IntArr2x3, 12)
+GS(LongArr2x2, 16)
+#elif defined(ABI_ILP64)
+GS(IntArr2x3, 48)
+GS(LongArr2x2, 32)
+#elif defined(ABI_LP64U)
+GS(IntArr2x3, 24)
+GS(LongArr2x2, 32)
+#else
+GS(IntArr2x3, 24)
+GS(LongArr2x2, 16)
+#endif
 #if defined(ABI_LP16)
 GS(int, 2)
 GS(long, 4)
@@ -71,6 +88,14 @@ GS(int*, 2)
 GS(int**, 2)
 GS(PS, 12) // a@0 (4) b@4 (1) c@6 (2) d@8 (2), alignment 4
 GS(IntArr4, 8)
+#elif defined(ABI_ILP64)
+GS(int, 8)
+GS(long, 8)
+GS(unsigned long, 8)
+GS(int*, 8)
+GS(int**, 8)
+GS(PS, 32)
+GS(IntArr4, 32)
 #elif defined(ABI_LP64U)
 GS(int, 4)
 GS(long, 8)
@@ -467,6 +492,32 @@ static void idx_sweep(std::mt19937_64& rng, Arr& arr, const char* kind, const ch
   run.flush();
 }
 
+#ifdef ABI_ILP64
+// the index is tainted data IN SANDBOX MEMORY, where an int has 64 bits: unwrapping it narrows,
+// so a wide value whose low bits alias a valid index must abort, not be truncated
+template<typename Arr>
+static void idx_sweep_cell(std::mt19937_64& rng, Arr& arr, const char* kind, const char* el, long len, long es)
+{
+  static tainted<int*, Sbx> pc = sb->malloc_in_sandbox<int>();
+  int64_t* rawc = reinterpret_cast<int64_t*>(pc.UNSAFE_unverified());
+  IdxRun run;
+  run.kind = kind;
+  run.el = el;
+  run.ity = "i64";
+  run.w = "V";
+  run.len = len;
+  run.es = es;
+  for (W x : sparse_idx<i64>(rng, len)) {
+    *rawc = (int64_t)x;
+    g_abort_flag = false;
+    const volatile void* el_addr = std::addressof(arr[*pc]);
+    W eoff = (W)reinterpret_cast<uintptr_t>(el_addr) - (W)reinterpret_cast<uintptr_t>(std::addressof(arr));
+    run.add(x, g_abort_flag ? 1 : 0, eoff - x * es);
+  }
+  run.flush();
+}
+#endif
+
 template<typename T, size_t N>
 static void c17_shape(std::mt19937_64& rng, bool thorough)
 {
@@ -475,6 +526,10 @@ static void c17_shape(std::mt19937_64& rng, bool thorough)
   tainted<T[N], Sbx> app_arr;
   auto parr = sb->malloc_in_sandbox<T[N]>();
   auto& vol_arr = *parr;
+#ifdef ABI_ILP64
+  idx_sweep_cell(rng, app_arr, "T", el, N, sizeof(T));
+  idx_sweep_cell(rng, vol_arr, "V", el, N, GuestSize<T>::v);
+#endif
   for (int w = 0; w < 2; w++) {
     idx_sweep<decltype(app_arr), int8_t>(rng, app_arr, "T", el, N, sizeof(T), w, true);
     idx_sweep<decltype(app_arr), uint8_t>(rng, app_arr, "T", el, N, sizeof(T), w, true);
@@ -579,6 +634,8 @@ int main(int argc, char** argv)
     c05_pointee<long>(rng, thorough, true);
     c05_pointee<PS>(rng, thorough, true);
     c05_pointee<int*>(rng, thorough, true);
+    c05_pointee<IntArr2x3>(rng, thorough, false);
+    c05_pointee<LongArr2x2>(rng, thorough, false);
     c05_pointee<short>(rng, thorough, thorough);
     c05_pointee<long long>(rng, thorough, thorough);
     c05_pointee<double>(rng, thorough, thorough);
